@@ -108,7 +108,19 @@ func init() {
 			o := mixedOpts(thorough)
 			o.Faults, o.BindFailures, o.MIG = false, false, false
 			o.Hierarchy, o.MaxWorkloads, o.MaxCycles = 3, 12, 3
-			return GenScript(t, "C09", "queue-trees", o)
+			s := GenScript(t, "C09", "queue-trees", o)
+			if chance(t, "timebased", 45) { // time-based fair share: historical usage per queue and a k-value
+				s.Profile = "queue-trees-usage"
+				s.Config.KValue = pick(t, "kvalue", "", "0.5", "1", "2", "10")
+				s.Config.Usage = map[string][3]float64{}
+				for _, q := range s.World.Queues {
+					if chance(t, "hasusage", 75) {
+						u := pick(t, "usage", 0.0, 0.05, 0.2, 0.5, 0.9, 1.0)
+						s.Config.Usage[q.Name] = [3]float64{u, pick(t, "usagecpu", 0.0, u, 0.5), pick(t, "usagemem", 0.0, u)}
+					}
+				}
+			}
+			return s
 		},
 		Oracles: func() []Oracle { return []Oracle{&FairShareOracle{}} },
 		Post: func(t *testing.T, s *Script, ors []Oracle, res *Result) {
